@@ -1,5 +1,6 @@
 import RdpModel.Lemmas.GlobalTotal
 import RdpModel.Wire.Mcs
+import RdpModel.Lemmas.Per
 /-
   C06 — Hostile server bytes during an active session never crash the client.
   `step` is the model of `global::Client::read`; the theorems quantify over every client
@@ -610,29 +611,6 @@ end Rdp.Global
 
 namespace Rdp.Mcs
 open Rdp Rdp.Per
-
-theorem readU8_np (s : Bytes) : ∀ p, readU8 s ≠ .panic p := by
-  intro p; unfold readU8 rdExact; split <;> simp
-theorem readU16be_np (s : Bytes) : ∀ p, readU16be s ≠ .panic p := by
-  intro p; unfold readU16be rdExact; split <;> simp
-theorem readInteger16_np (m : Nat) (s : Bytes) : ∀ p, readInteger16 m s ≠ .panic p := by
-  intro p; unfold readInteger16
-  cases h : readU16be s with
-  | ok v r => simp only [RR.bind_ok]; split <;> simp
-  | err r => simp
-  | panic q => exact absurd h (readU16be_np s q)
-theorem readLength_np (s : Bytes) : ∀ p, readLength s ≠ .panic p := by
-  intro p; unfold readLength
-  cases h : readU8 s with
-  | ok v r =>
-    simp only [RR.bind_ok]; split
-    · cases h2 : readU8 r with
-      | ok v2 r2 => simp
-      | err r2 => simp
-      | panic q => exact absurd h2 (readU8_np r q)
-    · simp
-  | err r => simp
-  | panic q => exact absurd h (readU8_np s q)
 
 /-- **C06** — `mcs::Client::read` on any x224 payload returns a value or an error -/
 theorem c06_mcs_read_total (uid gid : Nat) (p : Payload) : ∀ q, read uid gid p ≠ .panic q := by
